@@ -450,8 +450,20 @@ func addHTTP(m map[string]Intrinsic) {
 	m["(*crypto/tls.Conn).Write"] = func(vm *VM, fn *ssa.Function, args []Value) Value {
 		return TupleV{intV(args[1].(SliceV).Len), IfaceV{}}
 	}
+	// the client side of the tunnel always has the next request's bytes ready
+	m["(*crypto/tls.Conn).Read"] = func(vm *VM, fn *ssa.Function, args []Value) Value {
+		return TupleV{intV(args[1].(SliceV).Len), IfaceV{}}
+	}
 	m["bufio.NewReader"] = func(vm *VM, fn *ssa.Function, args []Value) Value {
-		return vm.newStruct(vm.typeByName("bufio", "Reader"), "bufio.Reader")
+		br := vm.newStruct(vm.typeByName("bufio", "Reader"), "bufio.Reader")
+		vm.P.env[fmt.Sprintf("bufio.src:%d", br.Obj.ID)] = args[0] // the reader it draws from
+		return br
+	}
+	// vNextRequestBytes(n): the request the source hands out next occupies n bytes of the
+	// tunnel's byte stream (head and body); ReadRequest draws them from its reader
+	m["vocab.vNextRequestBytes"] = func(vm *VM, fn *ssa.Function, args []Value) Value {
+		vm.P.env["reqbytes"] = args[0]
+		return nil
 	}
 	m["vocab.vSetRequestSource"] = func(vm *VM, fn *ssa.Function, args []Value) Value {
 		vm.P.env["reqsource"] = args[0]
@@ -462,7 +474,48 @@ func addHTTP(m map[string]Intrinsic) {
 		if !ok {
 			return TupleV{PtrV{}, vm.globalIface("io", "EOF")}
 		}
-		return vm.callValue(src, nil, nil)
+		delete(vm.P.env, "reqbytes")
+		res := vm.callValue(src, nil, nil)
+		nb, declared := vm.P.env["reqbytes"]
+		if !declared {
+			return res
+		}
+		// draw the declared number of bytes through the reader chain the proxy built (the real
+		// Read methods of whatever wraps the connection are interpreted): a reader that runs dry
+		// first means the request cannot be read
+		need := int(nb.(*Term).Int())
+		br, _ := args[0].(PtrV)
+		under, has := vm.P.env[fmt.Sprintf("bufio.src:%d", br.Obj.ID)]
+		if br.Obj == nil || !has {
+			return res
+		}
+		buf := vm.makeSlice(types.Typ[types.Uint8], 32768, 32768)
+		got := 0
+		for got < need {
+			want := need - got
+			if want > 32768 {
+				want = 32768
+			}
+			part := buf
+			part.Len = want
+			readM := vm.typeByName("io", "Reader").Underlying().(*types.Interface).Method(0)
+			rv := vm.invokeMethod(under, readM, []Value{part}).(TupleV)
+			n := int(rv[0].(*Term).Int())
+			got += n
+			if e, isErr := rv[1].(IfaceV); isErr && e.V != nil {
+				if got < need {
+					if got == 0 {
+						return TupleV{PtrV{}, vm.globalIface("io", "EOF")}
+					}
+					return TupleV{PtrV{}, vm.globalIface("io", "ErrUnexpectedEOF")}
+				}
+				break
+			}
+			if n == 0 {
+				break
+			}
+		}
+		return res
 	}
 	m["(net/http.noBody).Read"] = func(vm *VM, fn *ssa.Function, args []Value) Value {
 		return TupleV{intV(0), vm.globalIface("io", "EOF")}
@@ -659,10 +712,12 @@ func addHTTP(m map[string]Intrinsic) {
 				panic(vm.fail("singleflight follower without a leader result"))
 			}
 			r := prev.(TupleV)
+			vm.raceAcquire("singleflight", true) // fn's completion happens before every Do returns
 			return TupleV{r[0], r[1], tTrue}
 		}
 		vm.lockEventLog("callback", nil, true)
 		r := vm.callValue(args[2], nil, nil).(TupleV)
+		vm.raceRelease("singleflight", true)
 		vm.P.env["singleflight.result"] = r
 		if h, ok := vm.P.env["singleflight.after"]; ok {
 			vm.callValue(h, nil, nil)
